@@ -19,6 +19,8 @@ var workerChoices = []int{1, 2, 3, 4, 5, 8, 16, 1, 2, 3, 4, 7, 12, 19, 20, 21, 3
 func genPolicy(r *simctl.Rand, est int) simctl.Policy {
 	p := genPolicy0(r, est)
 	p.Pool = []int{0, 0, 0, 1, 2}[p.Seed%5]
+	// simulated time passing between steps ("the released task was slow")
+	p.Jitter = []int{0, 0, 0, 0, 0, 0, 20, 20, 200, 200}[(p.Seed/5)%10]
 	return p
 }
 
